@@ -332,7 +332,11 @@ func ParseTokenParam(buf []byte, offs int, param *PTokParam,
 					// e.g.: foo;p1 bar => consider bar new param
 					param.state = paramFIN
 					// return separator pos (as expected)
-					if i >= offs+1 {
+					// (if there is no whitespace before the token, e.g.
+					//  p="v"bar, return the token start: the result must
+					//  not depend on where this call was started)
+					if i > 0 && (buf[i-1] == ' ' || buf[i-1] == '\t' ||
+						buf[i-1] == '\r' || buf[i-1] == '\n') {
 						return i - 1, ErrHdrOk
 					} else {
 						return i, ErrHdrOk
@@ -481,7 +485,11 @@ func ParseTokenParam(buf []byte, offs int, param *PTokParam,
 					// e.g.: foo;p1=5 bar =>  consider bar new param
 					param.state = paramFIN
 					// return separator pos (as expected)
-					if i >= offs+1 {
+					// (if there is no whitespace before the token, e.g.
+					//  p="v"bar, return the token start: the result must
+					//  not depend on where this call was started)
+					if i > 0 && (buf[i-1] == ' ' || buf[i-1] == '\t' ||
+						buf[i-1] == '\r' || buf[i-1] == '\n') {
 						return i - 1, ErrHdrOk
 					} else {
 						return i, ErrHdrOk
